@@ -1453,3 +1453,72 @@ def _(ex, a):
 @prim('<Reverse as PartialOrd>::partial_cmp')
 def _(ex, a):
     return value_partial_cmp(ex, a[0], a[1])
+
+
+# ------------------------------------------------------------------ serde at the data-model boundary
+# The Serializer / SeqAccess a format would provide is the environment: the stub serializer records the
+# data-model value gdsl emits, the stub SeqAccess hands a prepared value back element by element.
+def data_model(ex, v):
+    """deep copy of a value as plain python lists (ints / z3 terms at the leaves)"""
+    v = ex.deref_all(v)
+    if isinstance(v, Agg):
+        if v.kind in ('Vec', 'tuple', 'array'):
+            return [data_model(ex, x) for x in v.f]
+        raise Unsupported('data model of ' + v.kind)
+    return v
+
+
+@prim('<S as Serializer>::serialize_tuple')
+def _(ex, a):
+    return Ok(Agg('StubTuple', [[], a[1]]))
+
+
+@prim('<assoc as SerializeTuple>::serialize_element')
+def _(ex, a):
+    t = ex.deref(a[0])
+    t.f[0].append(data_model(ex, a[1]))
+    return Ok(UNIT())
+
+
+@prim('<assoc as SerializeTuple>::end')
+def _(ex, a):
+    if len(a[0].f[0]) != a[0].f[1]:
+        raise RustPanic('serialize_tuple: wrong number of elements')
+    return Ok(Agg('StubOk', [a[0].f[0]]))
+
+
+DROP_HOOKS['StubTuple'] = lambda ex, v: None
+DROP_HOOKS['StubOk'] = lambda ex, v: None
+DROP_HOOKS['StubSeq'] = lambda ex, v: None
+DROP_HOOKS['DeError'] = lambda ex, v: None
+
+
+def to_rust(x):
+    """python nested lists -> Vec of tuples of scalars (the shape Vec<(K, N)> / Vec<(K, K, E)>)"""
+    return Agg('Vec', [Agg('tuple', list(row)) for row in x])
+
+
+@prim('<A as SeqAccess>::next_element')
+def _(ex, a):
+    s = ex.deref(a[0])
+    if not s.f[0]:
+        return Ok(NONE())
+    el = s.f[0].pop(0)
+    if el == 'err':
+        return Err(Agg('DeError', ['injected']))
+    return Ok(Some(to_rust(el)))
+
+
+@prim('<assoc as Error>::custom')
+def _(ex, a):
+    return Agg('DeError', [render(a[0].f) if isinstance(a[0], Agg) else str(a[0])])
+
+
+@prim('<D as Deserializer>::deserialize_seq')
+def _(ex, a):
+    vis = a[1]
+    fl = vis.kind.split('::')[0]
+    cands = ex.ix.methods.get((fl, 'GraphVisitor', 'visit_seq'), [])
+    if len(cands) != 1:
+        raise Unsupported('visit_seq not found for ' + fl)
+    return ex.call_fn(cands[0][0], [vis, a[0]])
